@@ -35,13 +35,6 @@ Init == chain = <<>> /\ cur = <<>> /\ acc = Acc0
 
 Blocks == [era : Eras, size : Sizes, time : Times, txs : UNION {[1..n -> TxMenu] : n \in 1..MaxTxs}]
 
-\* on_block entry: block counters
-AccBlock(b) == /\ cur = <<>> /\ Len(chain) < MaxBlocks
-               /\ (chain # <<>> => b.era >= chain[Len(chain)].era)          \* heights ascend
-               /\ cur' = [b |-> b, k |-> 1]
-               /\ acc' = [acc EXCEPT !.blocks = @ + 1, !.txs = @ + Len(b.txs), !.sizes = Append(@, b.size)]
-               /\ UNCHANGED chain
-
 Bump(f, t) == [x \in DOMAIN f \cup {t} |-> IF x = t THEN (IF t \in DOMAIN f THEN f[t] + 1 ELSE 1) ELSE f[x]]
 RECURSIVE CountTypes(_, _, _, _)
 \* per output: type count and first occurrence <<block number, tx number>> (the block number stands for the height)
@@ -52,22 +45,34 @@ CountTypes(a, outs, i, pos) ==
                             !.first = IF t \in DOMAIN @ THEN @ ELSE [x \in DOMAIN @ \cup {t} |-> IF x = t THEN pos ELSE @[x]]],
                   outs, i + 1, pos)
 
+\* effect of one transaction on the accumulators (shared with the trace specification); rew = base reward at this height,
+\* pos = where the transaction is (block, index) - any value identifying it
+TxEffect(a, tx, rew, pos) ==
+  LET v == TxValue(tx)
+      a1 == [a EXCEPT !.fee = @ + (IF tx.cb /\ tx.outs # <<>> THEN Monus(tx.outs[1].val, rew) ELSE 0),
+                      !.ins = @ + tx.nin, !.outs = @ + Len(tx.outs), !.volume = @ + v,
+                      !.bigVal = IF v > @.v THEN [v |-> v, at |-> pos] ELSE @,
+                      !.bigSize = IF tx.size > @.v THEN [v |-> tx.size, at |-> pos] ELSE @]
+  IN CountTypes(a1, tx.outs, 1, pos)
+\* effect of the block-level bookkeeping: counters at entry, time gap at exit
+BlockEffect(a, ntx, size) == [a EXCEPT !.blocks = @ + 1, !.txs = @ + ntx, !.sizes = Append(@, size)]
+TimeEffect(a, t) == [a EXCEPT !.gaps = IF a.lastT > 0 THEN Append(@, Monus(t, a.lastT)) ELSE @, !.lastT = t]
+
+\* on_block entry: block counters
+AccBlock(b) == /\ cur = <<>> /\ Len(chain) < MaxBlocks
+               /\ (chain # <<>> => b.era >= chain[Len(chain)].era)          \* heights ascend
+               /\ cur' = [b |-> b, k |-> 1]
+               /\ acc' = BlockEffect(acc, Len(b.txs), b.size)
+               /\ UNCHANGED chain
+
 \* the body of the `for tx in &block.txs` loop
 AccTx == /\ cur # <<>> /\ cur.k <= Len(cur.b.txs)
-         /\ LET tx == cur.b.txs[cur.k]
-                pos == <<Len(chain) + 1, cur.k>>
-                v == TxValue(tx)
-                a1 == [acc EXCEPT !.fee = @ + (IF tx.cb /\ tx.outs # <<>> THEN Monus(tx.outs[1].val, Reward(cur.b.era)) ELSE 0),
-                                  !.ins = @ + tx.nin, !.outs = @ + Len(tx.outs), !.volume = @ + v,
-                                  !.bigVal = IF v > @.v THEN [v |-> v, at |-> pos] ELSE @,
-                                  !.bigSize = IF tx.size > @.v THEN [v |-> tx.size, at |-> pos] ELSE @]
-            IN acc' = CountTypes(a1, tx.outs, 1, pos)
+         /\ acc' = TxEffect(acc, cur.b.txs[cur.k], Reward(cur.b.era), <<Len(chain) + 1, cur.k>>)
          /\ cur' = [cur EXCEPT !.k = @ + 1] /\ UNCHANGED chain
 
 \* end of on_block: time between blocks (clamped at zero), remember the timestamp
 AccTime == /\ cur # <<>> /\ cur.k > Len(cur.b.txs)
-           /\ acc' = [acc EXCEPT !.gaps = IF acc.lastT > 0 THEN Append(@, Monus(cur.b.time, acc.lastT)) ELSE @,
-                                 !.lastT = cur.b.time]
+           /\ acc' = TimeEffect(acc, cur.b.time)
            /\ chain' = Append(chain, cur.b) /\ cur' = <<>>
 
 Next == (\E b \in Blocks : AccBlock(b)) \/ AccTx \/ AccTime
